@@ -15,6 +15,15 @@ Runtime monitor in three workloads (see DESIGN.md "C06"):
      whose scratch registers all hold arguments. The emitted bytes of every case (x86-64, x86-32, AArch64) are also
      disassembled by objdump / llvm-objdump and executed symbolically here; the same text gives the static rule
      `a preserved register written by the prolog / argument shuffle is in FuncFrame::saved_regs() and was stored before`.
+  D  call sites (drv_func --mode invoke): for every target (x86-64, x86-32, AArch64 Linux and Apple) and every convention a Compiler
+     function of convention A loads values, invokes a callee of convention B (registers, stack, by reference, immediates, variadic,
+     register or immediate target), stores the returned value and some of the arguments again, and returns a value of its own.
+     The bytes are disassembled and executed symbolically: at the call instruction every location FuncDetail names must hold its
+     argument, sp is aligned, no store leaves the call area; the call then changes everything the callee's ABI lets it change;
+     at the return the bound return registers, the values used after the call, the caller's own return value, its preserved
+     registers (ABI table) and sp are compared. B runs the x86-64 part of this natively as well (values live across calls, a JIT
+     function of one convention calling a helper of the other that really changes every volatile register, register targets).
+     Refused call sites / functions are keyed by what in the signature explains the refusal.
 """
 import json
 import os
@@ -67,6 +76,8 @@ def conv_key(env, conv):
         return "x86-" + conv
     if env == "x86-win":
         return "x86win-" + conv
+    if conv.startswith("lightcall"):
+        return env + "-" + conv
     return env
 
 
@@ -280,6 +291,82 @@ ABI_TABLE = {
 }
 
 
+# stack alignment at a call instruction: x86-64 (SysV 3.2.2, Microsoft x64) and AArch64 (AAPCS64 6.4.5.1, Apple) say 16.
+# i386: the original psABI and Windows say 4, gcc/clang on Linux maintain 16 since gcc 4.5 - both are accepted (see assumptions)
+ABI_STACK_ALIGNMENT = {"sysv64": (16,), "win64": (16,), "vectorcall64": (16,), "x86": (4, 16), "a64-linux": (16,), "a64-apple": (16,)}
+
+REG_TYPE_BYTES = {"gp8": 1, "gp16": 2, "gp32": 4, "gp64": 8, "vec32": 4, "vec64": 8, "vec128": 16, "vec256": 32, "vec512": 64, "k": 8, "mm": 8, "st": 10}
+
+
+def expected_value_types(t, is_ret, env):
+    """the TypeIds FuncDetail documents for one signature type: a 64-bit integer is a (lo u32, hi) pack on x86-32; return values narrower
+    than 32 bits are reported as 32-bit integers of the same signedness; everything else keeps its type"""
+    if env.startswith("x86") and t in ("i64", "u64"):
+        return ["u32", "i32" if t == "i64" else "u32"]
+    if is_ret and t in ("i8", "i16", "i32"):
+        return ["i32"]
+    if is_ret and t in ("u8", "u16", "u32"):
+        return ["u32"]
+    return [t]
+
+
+def check_value_types(s, rec, ck):
+    """FuncValue::type_id() / reg_type() of every argument and return value (the locations are judged elsewhere)"""
+    env, conv, va, ret, args, origin = s
+    viol = []
+    text = sig_text(s)
+    items = [(k, t, rec["args"][k], False) for k, t in enumerate(args)]
+    if ret != "void":
+        items.append((-1, ret, rec["rets"], True))
+    for k, t, vals, is_ret in items:
+        if not vals:
+            continue
+        want = expected_value_types(t, is_ret, env)
+        name = "return value" if is_ret else "argument %d" % k
+        got = [v["t"] for v in vals]
+        if got != want:
+            viol.append(("classify:%s:%stype-id:%s" % (ck, "ret:" if is_ret else "", coarse(t)),
+                         "%s: %s (%s): FuncValue::type_id() is %s, expected %s" % (text, name, t, "/".join(got), "/".join(want))))
+            continue
+        for v in vals:
+            if v["k"] != "reg" or v.get("ind"):
+                continue
+            have = REG_TYPE_BYTES.get(v["rt"])
+            if have is None or have < ap.type_size(v["t"]):
+                viol.append(("classify:%s:%sreg-type:%s" % (ck, "ret:" if is_ret else "", coarse(t)),
+                             "%s: %s (%s) is assigned %s%d with FuncValue::reg_type() = %s, which cannot hold %d bytes" % (
+                                 text, name, t, v["g"], v["id"], v["rt"], ap.type_size(v["t"]))))
+                break
+    return viol
+
+
+def check_structure(s, rec, ck):
+    """facts that hold whatever the ABI says: no register holds two arguments, stack arguments do not overlap and lie inside arg_stack_size"""
+    env, conv, va, ret, args, origin = s
+    viol = []
+    text = sig_text(s)
+    used = {}
+    spans = []
+    for k, t in enumerate(args):
+        vals = rec["args"][k]
+        for v in vals:
+            if v["k"] == "reg":
+                key = (v["g"], v["id"])
+                if key in used and used[key] != k:
+                    viol.append(("classify:%s:register-assigned-twice" % ck, "%s: arguments %d and %d both in %s%d" % (text, used[key], k, v["g"], v["id"])))
+                used[key] = k
+            elif v["k"] == "stack":
+                size = (4 if env.startswith("x86") else 8) if v.get("ind") else (ap.type_size(t) if len(vals) == 1 else 4)
+                spans.append((v["off"], v["off"] + size, k))
+    spans.sort()
+    for (a0, a1, ka), (b0, b1, kb) in zip(spans, spans[1:]):
+        if b0 < a1:
+            viol.append(("classify:%s:stack-arguments-overlap" % ck, "%s: arguments %d [%d,%d) and %d [%d,%d)" % (text, ka, a0, a1, kb, b0, b1)))
+    if spans and spans[-1][1] > rec["stack"]:
+        viol.append(("classify:%s:arg-stack-size" % ck, "%s: stack arguments extend to %d, arg_stack_size=%d" % (text, spans[-1][1], rec["stack"])))
+    return viol
+
+
 def abi_row(ck):
     if "lightcall" in ck:
         return None
@@ -337,6 +424,54 @@ def run_classify(exe, sigs, chk, stats):
 
 
 def compare_signature(s, rec, oracle_results, oracles, acc):
+    """Judge one signature. Where the compilers disagree with each other there is no single ABI answer, but AsmJit must still do what one of
+    them does (its whole view of the signature must equal one compiler's whole view), and the structural facts hold regardless."""
+    acc["last_ambiguous_class"] = "?"
+    viol, verdict = compare_signature_1(s, rec, oracle_results, oracles, acc)
+    ck = conv_key(s[0], s[1])
+    if verdict in ("judged", "ambiguous") and rec is not None and rec["err"] == 0:
+        viol = viol + check_structure(s, rec, ck)
+        if verdict == "judged":
+            viol = viol + check_value_types(s, rec, ck)
+            acc["value_types_checked"] = acc.get("value_types_checked", 0) + len(s[4]) + (s[3] != "void")
+    if verdict != "ambiguous" or s[2] is not None or rec is None or rec["err"] != 0 or len(oracles) < 2:
+        return viol, verdict
+    # "equals one compiler's whole view" is only a fair demand when a single disputed kind of type is involved: with two of them
+    # (say a 64-bit integer and an 8-byte vector on i386) following gcc for one and clang for the other is a defensible choice
+    unusual = set()
+    for t in list(s[4]) + ([s[3]] if s[3] != "void" else []):
+        c = ap.type_class(t)
+        if c in ("mmx", "mask", "v32", "v64", "v256", "v512") or (s[0].startswith("x86") and c in ("i64", "v128")):
+            unusual.add(c)
+    if len(unusual) > 1:
+        acc["ambiguous_with_several_disputed_types"] = acc.get("ambiguous_with_several_disputed_types", 0) + 1
+        return viol, verdict
+    per = []
+    for orc, r in zip(oracles, oracle_results):
+        scratch = {"unparsed": 0, "ambiguous": 0, "asmjit_rejected": 0, "judged": 0, "unparsed_samples": [], "ambiguous_samples": [], "ambiguous_by_type": {}}
+        v1, verdict1 = compare_signature_1(s, rec, [r], [orc], scratch, sub=True)
+        if verdict1 != "judged":
+            return viol, verdict
+        per.append((orc, v1))
+    acc["ambiguous_judged_against_each_compiler"] = acc.get("ambiguous_judged_against_each_compiler", 0) + 1
+    if any(not v1 for _, v1 in per):
+        acc["ambiguous_matching_one_compiler"] = acc.get("ambiguous_matching_one_compiler", 0) + 1
+        return viol, verdict
+    # which deviation names the class: an argument without any location explains everything after it; otherwise the compiler AsmJit follows longest
+    def dev_pos(v1):
+        m = re.search(r": argument (\d+) ", v1[0][1])
+        return int(m.group(1)) if m else 99
+    un = [v1[0] for _, v1 in per if v1[0][0].endswith(":unassigned")]
+    key0, what0 = un[0] if un else max((v1 for _, v1 in per), key=dev_pos)[0]
+    if key0.endswith(":unassigned"):
+        viol.append((key0, what0))
+    else:
+        viol.append(("classify:%s:matches-neither:%s" % (ck, acc["last_ambiguous_class"]),
+                     "the compilers disagree on this signature (on a %s) and AsmJit does what none of them does | " % acc["last_ambiguous_class"] + " || ".join("vs %s: %s" % (o.compiler, v1[0][1]) for o, v1 in per)))
+    return viol, verdict
+
+
+def compare_signature_1(s, rec, oracle_results, oracles, acc, sub=False):
     """Judge one signature. acc: dict of counters/lists. Returns list of (key, what)."""
     env, conv, va, ret, args, origin = s
     ck = conv_key(env, conv)
@@ -345,7 +480,7 @@ def compare_signature(s, rec, oracle_results, oracles, acc):
     # ---- oracle agreement ----
     # 4- and 8-byte generic vectors do not exist in MSVC (only __m64 does): for the Windows-only conventions, where clang is the
     # single oracle, what clang does with them is not a platform ABI -> no verdict (DESIGN "Limits": exotic combinations)
-    if len(oracles) == 1 and "win" in oracles[0].name:
+    if len(oracles) == 1 and "win" in oracles[0].name and (not sub or s[0].endswith("-win")):
         for t in list(args) + [ret]:
             if t != "void" and ap.type_class(t) in ("v32", "v64"):
                 acc["ambiguous"] += 1
@@ -404,6 +539,7 @@ def compare_signature(s, rec, oracle_results, oracles, acc):
         else:
             if any(v != views[0] for v in views[1:]):
                 acc["ambiguous"] += 1
+                acc["last_ambiguous_class"] = ap.type_class(t)
                 acc["ambiguous_by_type"][ap.type_class(t)] = acc["ambiguous_by_type"].get(ap.type_class(t), 0) + 1
                 if len(acc["ambiguous_samples"]) < 12:
                     acc["ambiguous_samples"].append("%s arg %d (%s): %s" % (text, k, t, " vs ".join("%s=%s" % (o.compiler, fmt_loc(v.get(0))) for o, v in zip(oracles, views))))
@@ -422,6 +558,7 @@ def compare_signature(s, rec, oracle_results, oracles, acc):
             rviews = [v for v in rviews if v is not None]
         if rviews and any(v != rviews[0] for v in rviews[1:]):
             acc["ambiguous"] += 1
+            acc["last_ambiguous_class"] = "ret:" + ap.type_class(ret)
             acc["ambiguous_by_type"]["ret:" + ap.type_class(ret)] = acc["ambiguous_by_type"].get("ret:" + ap.type_class(ret), 0) + 1
             if len(acc["ambiguous_samples"]) < 12:
                 acc["ambiguous_samples"].append("%s return: %s" % (text, " vs ".join(str([(o, fmt_loc(l)) for o, l in (v or ())]) for v in rviews)))
@@ -432,6 +569,7 @@ def compare_signature(s, rec, oracle_results, oracles, acc):
         ps = set(r["pop"] for r in usable)
         if len(ps) != 1:
             acc["ambiguous"] += 1
+            acc["last_ambiguous_class"] = "callee-pops"
             return viol, "ambiguous"
         pops = ps.pop()
 
@@ -575,6 +713,7 @@ def check_lightcall(s, rec):
             viol.append(("classify:%s:stack-arguments-overlap" % ck, "%s: arguments %d [%d,%d) and %d [%d,%d)" % (text, ka, a0, a1, kb, b0, b1)))
     if spans and spans[-1][1] > rec["stack"]:
         viol.append(("classify:%s:arg-stack-size" % ck, "%s: stack arguments extend to %d, arg_stack_size=%d" % (text, spans[-1][1], rec["stack"])))
+    viol += check_value_types(s, rec, ck)
     for v in rec["rets"]:
         if v["k"] == "reg":
             gi = {"gp": 0, "vec": 1, "k": 2, "mm": 3}.get(v["g"])
@@ -637,6 +776,7 @@ def workload_a(chk, exe, tier, scale, cov):
 
     # ---- convention records: preserved sets, red zone, spill zone ----
     conv_checked = 0
+    nsa_checked = {}
     seen = set()
     for i, s in enumerate(sigs):
         env, conv = s[0], s[1]
@@ -671,6 +811,11 @@ def workload_a(chk, exe, tier, scale, cov):
             chk.violation("classify:%s:red-zone" % ck, "%s: AsmJit red zone %d, ABI %d" % (ck, rec["red"], red), {"part": "classify", "line": driver_line(s)})
         elif rec["red"] < red:
             chk.note("%s: AsmJit uses a smaller red zone (%d) than the ABI grants (%d) - safe" % (ck, rec["red"], red))
+        nsa_ok = ABI_STACK_ALIGNMENT["x86" if ck.startswith("x86") else ck]
+        nsa_checked[ck] = rec["nsa"]
+        if rec["nsa"] not in nsa_ok:
+            chk.violation("classify:%s:natural-stack-alignment" % ck, "%s: CallConv::natural_stack_alignment() is %d, the ABI keeps the stack pointer %s-byte aligned at calls (frames that rely on less "
+                          "re-align for nothing, frames that rely on more fault in real callers)" % (ck, rec["nsa"], " or ".join(str(x) for x in nsa_ok)), {"part": "classify", "line": driver_line(s)})
         if rec["spill"] != spill:
             chk.violation("classify:%s:spill-zone" % ck, "%s: AsmJit spill zone %d, ABI %d" % (ck, rec["spill"], spill), {"part": "classify", "line": driver_line(s)})
 
@@ -686,11 +831,22 @@ def workload_a(chk, exe, tier, scale, cov):
         "asmjit_rejected_signatures": acc["asmjit_rejected"],
         "lightcall_signatures_checked_for_internal_consistency": light_checked,
         "convention_records_checked": conv_checked,
+        "natural_stack_alignment_compared": nsa_checked,
+        "value_type_ids_and_register_types_checked": acc.get("value_types_checked", 0),
+        "ambiguous_signatures_compared_with_each_compiler": acc.get("ambiguous_judged_against_each_compiler", 0),
+        "ambiguous_signatures_matching_one_compiler": acc.get("ambiguous_matching_one_compiler", 0),
+        "ambiguous_signatures_with_several_disputed_types_not_compared": acc.get("ambiguous_with_several_disputed_types", 0),
         "probe_functions_compiled": stats.compiled_functions,
         "probe_cache_hits": stats.cache_hits,
         "compiler_invocations": stats.compiler_invocations,
         "classify_driver_aborts": aborted,
     })
+    if not nsa_checked:
+        raise common.HarnessError("classification: no convention record reached the natural-stack-alignment comparison")
+    if not acc.get("value_types_checked"):
+        raise common.HarnessError("classification: no FuncValue type/register type was checked")
+    if acc["ambiguous"] and not acc.get("ambiguous_judged_against_each_compiler"):
+        raise common.HarnessError("classification: %d signatures are ambiguous between the compilers but none was compared with each compiler separately" % acc["ambiguous"])
     return len(distinct), samples, len(sigs)
 
 
@@ -844,6 +1000,11 @@ X86_VEC_MOV = {"movaps": 1, "movups": 0, "movapd": 1, "movupd": 0, "movdqa": 1, 
                "movdqu64": 0, "movdqu8": 0, "movdqu16": 0}
 
 
+def imm_byte(value, i):
+    b = (value >> (8 * i)) & 0xFF
+    return ("i", b) if b else ("z",)
+
+
 def x86_run(st, insts, stop_at=None):
     sim = ap.X86Sim(64 if st.arch == "x64" else 32)
     spk = ("gp", 4)
@@ -880,9 +1041,67 @@ def x86_run(st, insts, stop_at=None):
 
     for idx, (mn, opstr) in enumerate(insts):
         ops = [o.strip() for o in ap.split_ops(opstr.lower())] if opstr else []
-        vex = mn.startswith("v") and mn[1:] in (set(X86_VEC_MOV) | {"movd", "movq", "movss", "movsd", "cvtss2sd", "cvtsd2ss", "cvtps2pd", "cvtpd2ps"})
+        vex = mn.startswith("v") and mn[1:] in (set(X86_VEC_MOV) | {"movd", "movq", "movss", "movsd", "movlps", "cvtss2sd", "cvtsd2ss", "cvtps2pd", "cvtpd2ps"})
         base_mn = mn[1:] if vex else mn
         if mn in ("nop", "endbr64", "endbr32", "vzeroupper", "emms"):
+            continue
+        if mn.startswith("rex") and opstr:
+            sp2 = opstr.split(None, 1)       # objdump prints a redundant REX prefix as a word of its own
+            mn, opstr = sp2[0].lower(), (sp2[1].strip() if len(sp2) > 1 else "")
+            ops = [o.strip() for o in ap.split_ops(opstr.lower())] if opstr else []
+            base_mn = mn
+        if mn == "movabs":
+            mn = base_mn = "mov"
+        if base_mn == "movlps" and len(ops) == 2:
+            d, s = sim.parse_op(ops[0]), sim.parse_op(ops[1])
+            if d[0] == "r" and s[0] == "m":
+                st.setreg((d[1][0], d[1][1]), st.load(addr_of(s), 8), mn, keep_upper=True)
+                continue
+            if d[0] == "m" and s[0] == "r":
+                st.store(addr_of(d), st.getreg((s[1][0], s[1][1]))[:8], mn)
+                continue
+            raise Inconclusive("movlps form")
+        if mn == "call":
+            if not hasattr(st, "on_call"):
+                raise Inconclusive("instruction call")
+            st.on_call(sim.parse_op(ops[0]) if ops and not re.match(r"^0x[0-9a-f]+$", ops[0]) else ("i", 0))
+            continue
+        if mn == "ret":
+            if not hasattr(st, "on_ret"):
+                raise Inconclusive("instruction ret")
+            st.on_ret(int(ops[0], 0) if ops else 0)
+            return
+        if mn == "pop":
+            o = sim.parse_op(ops[0])
+            if o[0] != "r" or (o[1][0], o[1][1]) == spk:
+                raise Inconclusive("pop operand")
+            data = st.load(st.sp, st.P)
+            st.setreg((o[1][0], o[1][1]), data + [("z",)] * (8 - st.P), mn)
+            st.sp = (st.sp[0], st.sp[1] + st.P)
+            continue
+        if mn == "leave":
+            p = st.as_ptr(("gp", 5))
+            if p is None:
+                raise Inconclusive("leave with a non-pointer frame register")
+            st.sp = p
+            st.setreg(("gp", 5), st.load(st.sp, st.P) + [("z",)] * (8 - st.P), mn)
+            st.sp = (st.sp[0], st.sp[1] + st.P)
+            continue
+        if mn in ("xor", "pxor", "xorps", "vpxor", "vxorps") and len(ops) >= 2 and len(set(ops)) == 1 and ops[0] in ap.X86REG:
+            r = ap.X86REG[ops[0]]
+            st.setreg((r[0], r[1]), [("z",)] * (8 if r[0] == "gp" else 16), mn, keep_upper=(r[0] == "vec" and not mn.startswith("v")))
+            continue
+        if mn == "fld" and hasattr(st, "on_call"):
+            d = sim.parse_op(ops[0])
+            if d[0] != "m" or not d[5]:
+                raise Inconclusive("x87 load form")
+            st.setreg(("st", 0), st.load(addr_of(d), d[5]), mn)
+            continue
+        if mn in ("fstp", "fst") and hasattr(st, "on_call"):
+            d = sim.parse_op(ops[0])
+            if d[0] != "m" or not d[5]:
+                raise Inconclusive("x87 store form")
+            st.store(addr_of(d), st.getreg(("st", 0))[:d[5]], mn)
             continue
         if mn == "push":
             o = sim.parse_op(ops[0])
@@ -952,9 +1171,13 @@ def x86_run(st, insts, stop_at=None):
                     sw = s[5] or dw
                     data = st.load(addr_of(s), sw)
                     if dk == spk:
-                        raise Inconclusive("sp loaded from memory")
+                        b = data[0]
+                        if not (b and b[0] == "p" and all(x and x[0] == "p" and x[1:3] == b[1:3] and x[3] == i for i, x in enumerate(data[:st.P]))):
+                            raise Inconclusive("sp loaded from memory that holds no saved stack pointer")
+                        st.sp = (b[1], b[2])
+                        continue
                 elif s[0] == "i":
-                    data = [("i", (s[1] >> (8 * i)) & 0xFF) for i in range(dw)]
+                    data = [imm_byte(s[1], i) for i in range(dw)]
                     sw = dw
                 else:
                     raise Inconclusive("mov source")
@@ -983,7 +1206,7 @@ def x86_run(st, insts, stop_at=None):
                     continue
                 if s[0] == "i":
                     w = d[5] or 4
-                    st.store(addr_of(d), [("i", (s[1] >> (8 * i)) & 0xFF) for i in range(w)], mn)
+                    st.store(addr_of(d), [imm_byte(s[1], i) for i in range(w)], mn)
                     continue
             raise Inconclusive("mov form")
         if base_mn in X86_VEC_MOV or base_mn in ("movd", "movq", "movss", "movsd") or mn in ("kmovb", "kmovw", "kmovd", "kmovq", "movq2dq", "movdq2q"):
@@ -1061,6 +1284,55 @@ def a64_run(st, insts):
     for mn, opstr in insts:
         ops = [o.strip() for o in ap.split_ops(opstr)] if opstr else []
         if mn in ("nop", "bti", "paciasp", "autiasp"):
+            continue
+        if mn in ("blr", "bl"):
+            if not hasattr(st, "on_call"):
+                raise Inconclusive("instruction " + mn)
+            r = ap.a64_reg(ops[0]) if mn == "blr" else None
+            st.on_call(("r", r) if r else ("i", 0))
+            continue
+        if mn == "ret":
+            if not hasattr(st, "on_ret"):
+                raise Inconclusive("instruction ret")
+            st.on_ret(0)
+            return
+        if mn in ("mov", "movz", "movn", "movk") and len(ops) >= 2 and ops[1].startswith("#"):
+            d = reg(ops[0])
+            if d[0] != "gp":
+                raise Inconclusive("immediate move to " + ops[0])
+            v = int(ops[1][1:], 0)
+            sh = 0
+            if len(ops) > 2:
+                m = re.match(r"lsl #(\d+)", ops[2])
+                if not m:
+                    raise Inconclusive("immediate move modifier " + ops[2])
+                sh = int(m.group(1))
+            if mn == "movk":
+                old = list(st.getreg(("gp", d[1])))
+                new = old[:]
+                for i in range(2):
+                    new[sh // 8 + i] = imm_byte(v, i)
+                st.setreg(("gp", d[1]), new[:d[2]] + [("z",)] * (8 - d[2]), mn)
+                continue
+            v = (~(v << sh) if mn == "movn" else (v << sh)) & ((1 << (8 * d[2])) - 1)
+            st.setreg(("gp", d[1]), [imm_byte(v, i) for i in range(d[2])] + [("z",)] * (8 - d[2]), mn)
+            continue
+        if mn in ("sub", "add") and len(ops) >= 3 and ops[0] != "sp" and ops[2].startswith("#") and ops[0].startswith("x"):
+            d, s_ = reg(ops[0]), ap.a64_reg(ops[1])
+            imm = int(ops[2].lstrip("#"), 0)
+            if len(ops) > 3:
+                m = re.match(r"lsl #(\d+)", ops[3])
+                if not m:
+                    raise Inconclusive("add modifier")
+                imm <<= int(m.group(1))
+            if mn == "sub":
+                imm = -imm
+            if s_ is None:
+                raise Inconclusive("add source " + ops[1])
+            p = (st.sp if s_[0] == "sp" else st.as_ptr(("gp", s_[1])))
+            if p is None:
+                raise Inconclusive("arithmetic on a non-pointer")
+            st.setreg(("gp", d[1]), st.ptr_value(p[0], p[1] + imm), mn)
             continue
         if mn in ("sub", "add") and len(ops) >= 3 and ops[0] == "sp" and ops[1] == "sp":
             imm = int(ops[2].lstrip("#"), 0)
@@ -1440,6 +1712,16 @@ def fmt_sym(b):
         return "ptr"
     if b[0] == "cvt":
         return "%s(%s)[%d]" % (b[1], fmt_sym(b[2][0]), b[3])
+    if b[0] == "i":
+        return "%02x" % b[1]
+    if b[0] == "r":
+        return "ret.%d" % b[1]
+    if b[0] == "cr":
+        return "val.%d" % b[1]
+    if b[0] == "e":
+        return "entry(%s%d).%d" % (b[1], b[2], b[3])
+    if b[0] == "clob":
+        return "changed-by-callee(%s%d)" % b[1]
     return str(b[0])
 
 
@@ -1570,6 +1852,7 @@ def workload_c(chk, exe_plain, exe_asan, tier, scale, cov):
     variants = {}
     variant_combos = set()
     variant_samples = []
+    regfile_moves = {}
     for job, cases, sums, reps in common.parallel_map(one, jobs):
         exe, argv, restart, tag = job
         arch = argv[argv.index("--arch") + 1]
@@ -1679,6 +1962,10 @@ def workload_c(chk, exe_plain, exe_asan, tier, scale, cov):
                 inconclusive[verdict] = inconclusive.get(verdict, 0) + 1
                 continue
             checked += 1
+            for v in c["vals"]:
+                if "dst" in v and v["dst"]["k"] == "reg" and v["dst"]["g"] in ("k", "mm") and v["src"]["k"] == "stack":
+                    kk = "stack->%s%s" % (v["dst"]["g"], ":executed" if "native" in c else "")
+                    regfile_moves[kk] = regfile_moves.get(kk, 0) + 1
             sh = shape_of(c)
             shapes.add((arch, sh))
             if nontrivial_shape(sh):
@@ -1723,8 +2010,484 @@ def workload_c(chk, exe_plain, exe_asan, tier, scale, cov):
         "shuffle_sa_register_variants": variants,
         "shuffle_sa_register_variant_combinations": len(variant_combos),
         "shuffle_sa_register_variant_samples": variant_samples,
+        "shuffle_stack_arguments_loaded_into_mask_or_mmx_registers": regfile_moves,
     })
+    for kk in ("stack->k", "stack->mm"):
+        if not any(k.startswith(kk) for k in regfile_moves):
+            raise common.HarnessError("shuffle workload: no checked case moved a stack argument into a %s register" % kk.split(">")[1])
     return len(shapes_nt), samples, checked
+
+
+# ---------------------------------------------------------------------------------------------
+# Workload D: call sites (Compiler invoke) of every target, executed symbolically: marshalling, the call, the return
+# ---------------------------------------------------------------------------------------------
+
+PRES_VEC_BYTES = {"win64": 16, "vectorcall64": 16, "a64-linux": 8, "a64-apple": 8}
+
+
+class ClobberUse(Exception):
+    def __init__(self, key):
+        Exception.__init__(self, "%s%d" % key)
+        self.key = key
+
+
+def preserved_view(case, which):
+    """-> (gp mask, vec mask, vec bytes, k mask, mm mask) the callee (`which`="conv") or the caller (`which`="cconv") convention preserves:
+    the ABI table for platform conventions, the convention's own record for AsmJit's light-call conventions"""
+    ck = conv_key(case["env"], case[which])
+    row = abi_row(ck)
+    if row is None:
+        pres = case["pres"] if which == "conv" else case["cpres"] + [0, 0]
+        return pres[0], pres[1], 16, pres[2], pres[3]
+    sp = 31 if case["arch"] == "a64" else 4
+    return row[0] & ~(1 << sp), row[1], PRES_VEC_BYTES.get(ck, 0), 0, 0
+
+
+class InvokeState(SymState):
+    """the caller function of drv_func --mode invoke: entry state, what a call does to the machine, and the verdicts"""
+
+    def __init__(self, case):
+        self.case = case
+        self.arch = case["arch"]
+        self.W = {"x64": 8, "x86": 4, "a64": 0}[self.arch]
+        self.P = 4 if self.arch == "x86" else 8
+        self.reg, self.writer, self.mem, self.memwriter = {}, {}, {}, {}
+        self.sp = ("in", 0)
+        self.align = None
+        self.stores, self.misaligned = [], []
+        self.phase = "marshal"
+        self.calls = 0
+        self.returned = False
+        self.viol = []
+        self.ck = conv_key(case["env"], case["conv"])
+        self.cck = conv_key(case["env"], case["cconv"])
+        self.text = invoke_text(case)
+        self.facts = {"args": 0, "arg_bytes": 0, "stack_args": 0, "imm_args": 0, "indirect_args": 0, "ret_bytes": 0, "live_bytes": 0, "preserved_regs": 0,
+                      "caller_return_bytes": 0, "caller_return_pairs": 0}
+        for n, region in ((0, "gin"), (1, "gout")):
+            loc = case["cargs"][n][0]
+            pv = self.ptr_value(region, 0)
+            if loc["k"] == "reg":
+                self.setreg((loc["g"], loc["id"]), pv, "entry")
+            else:
+                for i in range(self.P):
+                    self.mem[("in", self.W + loc["off"] + i)] = pv[i]
+        for v in case["vals"]:
+            if "imm" in v:
+                continue
+            for b in range(tsize(v["t"])):
+                self.mem[("gin", 64 * v["a"] + v["off"] + b)] = ("a", v["a"], v["off"] + b)
+        for b in range(self.P):
+            self.mem[("gin", 4000 + b)] = ("t", b)
+        for r in case.get("crvals", []):
+            for b in range(tsize(r["t"])):
+                self.mem[("gin", 3072 + r["off"] + b)] = ("cr", r["off"] + b)
+
+    # ---- registers: entry symbols, and what a call leaves behind ----
+    def after_call(self, key, cur):
+        gp, vec, vbytes, km, mm = self.callee_pres
+        g, rid = key
+        if g == "gp":
+            keep = 8 if (gp >> rid) & 1 else 0
+        elif g == "vec":
+            keep = vbytes if (vec >> rid) & 1 else 0
+        elif g == "k":
+            keep = 8 if (km >> rid) & 1 else 0
+        elif g == "mm":
+            keep = 8 if (mm >> rid) & 1 else 0
+        else:
+            keep = 0
+        return cur[:keep] + [("clob", key)] * (len(cur) - keep)
+
+    def getreg(self, key):
+        if key not in self.reg:
+            w = self.width(key[0])
+            ent = [("e", key[0], key[1], i) for i in range(w)]
+            self.reg[key] = self.after_call(key, ent) if self.calls else ent
+        return self.reg[key]
+
+    def as_ptr(self, key):
+        r = self.getreg(key)
+        if r[0][0] == "clob":
+            raise ClobberUse(key)
+        return SymState.as_ptr(self, key)
+
+    def bytes_ptr(self, data):
+        b = data[0]
+        if b and b[0] == "p" and all(x and x[0] == "p" and x[1] == b[1] and x[2] == b[2] and x[3] == i for i, x in enumerate(data[:self.P])):
+            return (b[1], b[2])
+        return None
+
+    def aligned(self, addr, n):
+        n = min(n, 64)
+        if addr[0] == "al":
+            return (self.align or 0) >= n and addr[1] % n == 0
+        if addr[0] == "in":
+            if self.arch == "x64":
+                return n <= 16 and (addr[1] - 8) % n == 0
+            if self.arch == "a64":
+                return n <= 16 and addr[1] % n == 0
+            return n <= 4 and addr[1] % n == 0
+        return False
+
+    def bad(self, key, what):
+        if not any(k == key for k, _ in self.viol):
+            self.viol.append((key, what + " | " + self.text))
+
+    # ---- the call instruction ----
+    def on_call(self, target):
+        case = self.case
+        self.calls += 1
+        if self.calls > 1:
+            raise Inconclusive("second call")
+        ck = self.ck
+        sp = self.sp
+        # stack pointer alignment at the call (x86-64 and AArch64 ABIs: 16 bytes; i386: not judged, see assumptions)
+        if self.arch != "x86" and not self.aligned(sp, 16):
+            self.bad("invoke:%s:sp-misaligned-at-call" % ck, "the stack pointer at the call instruction is %s%+d, not 16-byte aligned" % ("entry_sp" if sp[0] == "in" else "aligned_sp", sp[1]))
+        if case.get("treg"):
+            got = self.getreg((target[1][0], target[1][1]))[:self.P] if target[0] == "r" and target[1] and target[1][0] == "gp" else \
+                (self.load(self.call_mem(target), self.P) if target[0] == "m" else None)
+            if got is None or got != [("t", b) for b in range(self.P)]:
+                self.bad("invoke:%s:target-register-wrong" % ck, "the call goes through %s which does not hold the target address the function loaded" % (target,))
+        for v in case["vals"]:
+            loc = case["args"][v["a"]][v["v"]]
+            n = tsize(v["t"])
+            cls = cls_of(v["t"])
+            if "imm" in v:
+                exp = [imm_byte(int(v["imm"], 16), b) for b in range(n)]
+                self.facts["imm_args"] += 1
+            else:
+                exp = [("a", v["a"], v["off"] + b) for b in range(n)]
+            if loc["k"] == "none":
+                continue
+            if loc["k"] == "reg":
+                data = self.getreg((loc["g"], loc["id"]))
+                where = "%s%d" % (loc["g"], loc["id"])
+                kind = "reg-" + loc["g"]
+            else:
+                a = (sp[0], sp[1] + loc["off"])
+                data = self.load(a, self.P if loc.get("ind") else n)
+                where = "[sp+%d]" % loc["off"]
+                kind = "stack"
+                self.facts["stack_args"] += 1
+            if loc.get("ind"):
+                self.facts["indirect_args"] += 1
+                kind = "ind-" + ("reg" if loc["k"] == "reg" else "stack")
+                p = self.bytes_ptr(data)
+                if p is None:
+                    self.bad("invoke:%s:arg:%s:%s:not-a-pointer" % (ck, cls, kind), "argument %d (%s) is passed by reference in %s, which holds %s instead of an address" % (
+                        v["a"], v["t"], where, " ".join(fmt_sym(x) for x in data[:self.P])))
+                    continue
+                if not self.aligned(p, 16 if n < 16 else n):
+                    self.bad("invoke:%s:by-reference-copy-misaligned" % ck, "argument %d (%s): the copy passed by reference lives at %s%+d, not %d-byte aligned" % (v["a"], v["t"], p[0], p[1], n))
+                where += " -> %s%+d" % p
+                data = self.load(p, n)
+            got = data[:n]
+            self.facts["args"] += 1
+            self.facts["arg_bytes"] += n
+            if got != exp:
+                self.bad("invoke:%s:arg:%s:%s%s" % (ck, cls, kind, ":imm" if "imm" in v else ""),
+                         "argument %d.%d (%s%s) must be in %s at the call; that location holds %s, expected %s" % (
+                             v["a"], v["v"], v["t"], (" = immediate 0x" + v["imm"].lstrip("0")) if "imm" in v else "", where,
+                             " ".join(fmt_sym(x) for x in got), " ".join(fmt_sym(x) for x in exp)))
+        # stores into the outgoing argument area must not leave the area the frame reserved for calls
+        lim = max(case["stack"], case["call_stack"], case["lso"])
+        for region, off, width, mn, phase in self.stores:
+            if region != sp[0]:
+                continue
+            rel = off - sp[1]
+            if 0 <= rel < case["stack"] and rel + width > lim:
+                self.bad("invoke:%s:store-overruns-call-area" % ck, "`%s` of %d bytes at [sp+%d]: the argument area is %d bytes, the frame keeps its own data (spill slots, saved registers) from [sp+%d] on; the store overwrites what the function keeps there" % (
+                    mn, width, rel, case["stack"], lim))
+        for mn, a, n, phase in self.misaligned:
+            self.bad("invoke:%s:aligned-move-on-unaligned-address" % ck, "`%s` of %d bytes at %s%+d which is not %d-byte aligned (would fault)" % (mn, n, a[0], a[1], min(n, 16)))
+        self.misaligned = []
+        # ---- what the callee leaves behind ----
+        self.callee_pres = preserved_view(case, "conv")
+        for key in list(self.reg):
+            self.reg[key] = self.after_call(key, self.reg[key])
+        for (region, off) in list(self.mem):
+            if region == sp[0] and sp[1] <= off < sp[1] + case["stack"]:
+                self.mem[(region, off)] = G()
+        if case["pops"]:
+            self.sp = (sp[0], sp[1] + case["stack"])
+        for r, loc in zip(case["rvals"], case["rets"]):
+            n = tsize(r["t"])
+            if loc["k"] != "reg":
+                continue
+            key = (loc["g"], loc["id"])
+            cur = self.getreg(key)
+            self.reg[key] = [("r", r["off"] + b) for b in range(n)] + [("clob", key)] * (len(cur) - n)
+        self.phase = "after"
+
+    def call_mem(self, m):
+        _, base, disp, sym, index, size = m
+        if index or sym is not None or base is None:
+            raise Inconclusive("call address form")
+        if (base[0], base[1]) == ("gp", 4):
+            return (self.sp[0], self.sp[1] + disp)
+        p = self.as_ptr((base[0], base[1]))
+        if p is None:
+            raise Inconclusive("call through a non-pointer")
+        return (p[0], p[1] + disp)
+
+    # ---- the return of the caller function ----
+    def on_ret(self, popped):
+        case = self.case
+        self.returned = True
+        if not self.calls:
+            raise Inconclusive("return before the call")
+        ck = self.ck
+        rn = tsize(case["ret"]) if case["ret"] != "void" else 0
+        total = sum(tsize(r["t"]) for r in case["rvals"])
+        rn = min(rn, total)
+        if rn:
+            got = self.load(("gout", 0), rn)
+            exp = [("r", b) for b in range(rn)]
+            self.facts["ret_bytes"] += rn
+            if got != exp:
+                loc = case["rets"][0]
+                self.bad("invoke:%s:ret:%s:%s" % (ck, cls_of(case["ret"]), ("reg-" + loc["g"]) if loc["k"] == "reg" else loc["k"]),
+                         "the callee returns %s in %s; the register bound with set_ret() was stored after the call and holds %s" % (
+                             case["ret"], "/".join("%s%d" % (l.get("g"), l.get("id", 0)) for l in case["rets"]), " ".join(fmt_sym(x) for x in got)))
+        for v in case["vals"]:
+            if not v.get("live"):
+                continue
+            n = tsize(v["t"])
+            got = self.load(("gout", 64 + 64 * v["a"] + v["off"]), n)
+            self.facts["live_bytes"] += n
+            if got != [("a", v["a"], v["off"] + b) for b in range(n)]:
+                where = sorted(set("%s%d" % x[1] for x in got if x and x[0] == "clob"))
+                self.bad("invoke:%s:value-live-across-call-lost:%s" % (ck, cls_of(v["t"])),
+                         "argument value %d.%d (%s) is used again after the call; what the function stores then is %s%s" % (
+                             v["a"], v["v"], v["t"], " ".join(fmt_sym(x) for x in got),
+                             (" (kept in %s, which a %s callee may change)" % (",".join(where), ck)) if where else ""))
+        # what the function itself returns (a value it loaded before the call and handed to ret()) must be where its own convention returns it
+        for r, loc in zip(case.get("crvals", []), case.get("crets", [])):
+            if loc["k"] != "reg":
+                continue
+            n = tsize(r["t"])
+            got = self.getreg((loc["g"], loc["id"]))[:n]
+            self.facts["caller_return_bytes"] += n
+            if r["v"]:
+                self.facts["caller_return_pairs"] += 1
+            if got != [("cr", r["off"] + b) for b in range(n)]:
+                self.bad("invoke:caller-%s:return-value-not-in-place:%s:%s%s" % (self.cck, cls_of(case["cret"]), "reg-" + loc["g"], ":hi" if r["v"] else ""),
+                         "the %s function returns %s with ret(); at the return instruction %s%d holds %s instead of the value" % (
+                             self.cck, case["cret"], loc["g"], loc["id"], " ".join(fmt_sym(x) for x in got)))
+        if self.sp != ("in", 0):
+            self.bad("invoke:%s:stack-pointer-not-restored" % self.arch, "the stack pointer at the return instruction is %s%+d, not its value at entry" % self.sp)
+        gp, vec, vbytes, km, mm = preserved_view(case, "cconv")
+        for g, mask, nb in (("gp", gp, self.P), ("vec", vec, vbytes)):
+            for rid in range(32):
+                if not (mask >> rid) & 1:
+                    continue
+                self.facts["preserved_regs"] += 1
+                got = self.getreg((g, rid))[:nb]
+                if got != [("e", g, rid, i) for i in range(nb)]:
+                    why = "changed by the callee and not saved by this function's frame" if any(x and x[0] == "clob" for x in got) else "overwritten"
+                    self.bad("invoke:caller-%s:callee-%s:preserved-register-not-restored:%s" % (self.cck, ck, g),
+                             "a %s function that calls a %s function: %s, which %s preserves, holds %s at the return (%s); FuncFrame::saved_regs %s=0x%x" % (
+                                 self.cck, ck, reg_name(self.arch, g, rid), self.cck, " ".join(fmt_sym(x) for x in got[:8]), why, g, case["saved"][0 if g == "gp" else 1]))
+        want_pop = 0
+        if self.arch == "x86" and case["cpops"] != popped:
+            self.bad("invoke:x86:caller-%s:ret-pops-differ" % self.cck, "the function ends with `ret %d`, its frame says callee_stack_cleanup=%d" % (popped, case["cpops"]))
+
+
+def invoke_text(case):
+    a = list(case["sig"])
+    if case.get("va", -1) >= 0:
+        a = a[:case["va"]] + ["..."] + a[case["va"]:]
+    return "%s/%s %s(%s) invoked from a %s function, case %d of `%s`" % (case["env"], case["conv"], case["ret"], ",".join(a), case["cconv"], case["i"], case.get("_argv", ""))
+
+
+def judge_invoke(case, insts):
+    """-> (violations, verdict, facts)"""
+    st = InvokeState(case)
+    try:
+        (x86_run if case["arch"] != "a64" else a64_run)(st, insts)
+    except ClobberUse as e:
+        st.bad("invoke:%s:pointer-live-across-call-lost" % st.ck, "after the call the function addresses memory through %s, which a %s callee may change (the pointer was live across the call)" % (
+            reg_name(case["arch"], e.key[0], e.key[1]), st.ck))
+        return st.viol, "checked", st.facts
+    except (Inconclusive, ap.Unparsed, ValueError, IndexError, KeyError, TypeError) as e:
+        if st.viol:
+            return st.viol, "checked", st.facts
+        return [], "inconclusive: %s" % (str(e)[:80]), st.facts
+    if not st.returned:
+        return st.viol, "inconclusive: no return reached", st.facts
+    return st.viol, "checked", st.facts
+
+
+def refusal_feature(case):
+    """which property of the signature explains that the Compiler refused the call site (key part)"""
+    feats = set()
+    for v in case.get("vals", []):
+        packs = case.get("args") or []
+        loc = packs[v["a"]][v["v"]] if v["a"] < len(packs) and v["v"] < len(packs[v["a"]]) else {"k": "none"}
+        if loc["k"] == "none":
+            feats.add("unassigned-argument:" + cls_of(v["t"]))
+        elif loc.get("ind") and loc["k"] == "stack":
+            feats.add("by-reference-vector-on-stack")
+        elif loc.get("ind"):
+            feats.add("by-reference-vector-in-register")
+        if "imm" in v and loc["k"] != "none":
+            feats.add("zz-immediate-operand")
+    for loc in case.get("rets") or []:
+        if loc["k"] == "reg" and loc["g"] == "st":
+            feats.add("zy-x87-return")
+    if case.get("va", -1) >= 0:
+        feats.add("zx-variadic")
+    for f in sorted(feats, key=lambda f: (not f.startswith("unassigned"), f != "by-reference-vector-on-stack", f)):
+        return f.split("-", 1)[1] if f.startswith("z") else f
+    return "plain-signature"
+
+
+def run_invoke_job(exe, argv):
+    """-> (cases, merged summary or None, aborts [(case index, sanitizer report or {"kind": "driver died ..."}, argv)], rc, stderr).
+    A driver that dies inside the library (sanitizer report, signal) is restarted behind the case it died in."""
+    cases, aborts = [], []
+    summ = None
+    first = int(argv[argv.index("--first") + 1]) if "--first" in argv else 0
+    end = first + int(argv[argv.index("--count") + 1])
+    pos = first
+    only = "--only" in argv
+    rc, err = 0, b""
+    while pos < end:
+        av = list(argv)
+        if not only:
+            av[av.index("--first") + 1] = str(pos)
+            av[av.index("--count") + 1] = str(end - pos)
+        rc, out, err = common.run_child([exe] + av, timeout=1800)
+        last = pos - 1
+        done = None
+        for ln in out.decode("utf-8", "replace").splitlines():
+            try:
+                d = json.loads(ln)
+            except ValueError:
+                continue
+            if d.get("summary"):
+                done = d
+            elif "i" in d:
+                d["_argv"] = " ".join(av)
+                cases.append(d)
+                last = d["i"]
+        if done is not None:
+            if summ is None:
+                summ = done
+            else:
+                for k in ("cases", "built", "rejected"):
+                    summ[k] += done[k]
+                for k, v in done["rejects"].items():
+                    summ["rejects"][k] = summ["rejects"].get(k, 0) + v
+            break
+        rep = common.sanitizer_report(err)
+        if rep is None and rc >= 0:
+            return cases, None, aborts, rc, err       # no summary, no crash: harness trouble
+        aborts.append((last + 1, rep or {"kind": "driver died with signal %d while building the call site" % -rc, "frames": [err.decode("utf-8", "replace")[-300:]]}, av))
+        if only or len(aborts) > 40:
+            break
+        pos = last + 2
+        if summ is None:
+            summ = {"cases": 0, "built": 0, "rejected": 0, "rejects": {}}
+    return cases, summ, aborts, rc, err
+
+
+def workload_d(chk, exe_plain, exe_asan, tier, scale, cov):
+    seed = chk.seed
+    n = {"x64": 1280, "x86": 1680, "a64": 1280} if tier == "quick" else {"x64": 12000, "x86": 15000, "a64": 12000}
+    jobs = []
+    per = 160 if tier == "quick" else 500
+    for arch, total in n.items():
+        total = max(int(total * scale), 28)
+        k = 0
+        while k < total:
+            c = min(per, total - k)
+            jobs.append((exe_plain, ["--mode", "invoke", "--arch", arch, "--seed", str(seed), "--first", str(k), "--count", str(c)], "plain"))
+            k += c
+        jobs.append((exe_asan, ["--mode", "invoke", "--arch", arch, "--seed", str(seed + 1), "--first", "0", "--count", str(max(total // 8, 14))], "asan"))
+
+    def one(job):
+        exe, argv, tag = job
+        return (job,) + run_invoke_job(exe, argv)
+
+    tot = {"cases": 0, "built": 0, "checked": 0}
+    by_conv, pairs, rejects, inconclusive = {}, {}, {}, {}
+    facts = {}
+    refused = {}
+    shapes = set()
+    samples = []
+    for job, cases, summ, aborts, rc, err in common.parallel_map(one, jobs):
+        exe, argv, tag = job
+        arch = argv[argv.index("--arch") + 1]
+        for bad, rep, av in aborts:
+            key = san_key("invoke", rep) if "driver died" not in rep["kind"] else "invoke:%s:compiler-crashes" % arch
+            chk.violation(key, "case %d of `%s`: %s %s" % (bad, " ".join(av), rep["kind"], rep["frames"][:5]), {"part": "invoke", "flavour": tag, "argv": av + ["--only", str(bad)]})
+        if summ is None:
+            raise common.HarnessError("drv_func %s rc=%s produced no summary: %s" % (argv, rc, err[-400:]))
+        if tag == "asan":
+            continue
+        tot["cases"] += summ["cases"]
+        tot["built"] += summ["built"]
+        for k, v in summ["rejects"].items():
+            rejects[arch + ":" + k] = rejects.get(arch + ":" + k, 0) + v
+        for c in cases:
+            if "err" in c:
+                ck = conv_key(c["env"], c["conv"])
+                refused.setdefault((ck, refusal_feature(c), c["err"]), []).append(c)
+        todo = [c for c in cases if "code" in c]
+        if not todo:
+            continue
+        for c, insts in zip(todo, disassemble([bytes.fromhex(c["code"]) for c in todo], arch)):
+            viol, verdict, f = judge_invoke(c, insts)
+            ck = conv_key(c["env"], c["conv"])
+            if verdict != "checked":
+                inconclusive[arch + ": " + verdict] = inconclusive.get(arch + ": " + verdict, 0) + 1
+                continue
+            tot["checked"] += 1
+            by_conv[ck] = by_conv.get(ck, 0) + 1
+            pk = "%s->%s" % (conv_key(c["env"], c["cconv"]), ck)
+            pairs[pk] = pairs.get(pk, 0) + 1
+            for k, v in f.items():
+                facts[k] = facts.get(k, 0) + v
+            shapes.add((ck, c["cconv"], c["ret"], tuple(c["sig"]), c["va"]))
+            if len(samples) < 3 and not viol and arch == ("a64", "x86", "x64")[len(samples)] and 3 <= len(c["sig"]) <= 9 and f["stack_args"]:
+                samples.append({"call site": invoke_text(c), "asmjit": " ".join("/".join(fmt_loc(aj_loc(v)) for v in vs) for vs in c["args"]),
+                                "code": [" ".join(x) for x in insts][:40],
+                                "verdict": "every argument location holds its value at the call, the return value reaches the bound register, values used after the call survive, the caller's preserved registers and sp are restored"})
+            for key, what in viol:
+                chk.violation(key, what, {"part": "invoke", "flavour": "plain", "argv": c["_argv"].split() + ["--only", str(c["i"])]})
+    for (ck, feat, err), lst in sorted(refused.items()):
+        c = min(lst, key=lambda x: len(x["sig"]))
+        chk.violation("invoke:%s:refused:%s" % (ck, feat),
+                      "Compiler::finalize() returned %s for a call site with a valid signature (%d such cases; feature: %s); smallest: %s" % (err.split(":")[-1], len(lst), feat, invoke_text(c)),
+                      {"part": "invoke", "flavour": "plain", "argv": c["_argv"].split() + ["--only", str(c["i"])]})
+    cov.update({
+        "invoke_call_sites_generated": tot["cases"],
+        "invoke_call_sites_built": tot["built"],
+        "invoke_call_sites_checked_symbolically": tot["checked"],
+        "invoke_checked_by_callee_convention": by_conv,
+        "invoke_checked_by_caller_to_callee_convention": pairs,
+        "invoke_symbolic_inconclusive": inconclusive,
+        "invoke_rejected_by_asmjit": rejects,
+        "invoke_refusal_classes": sorted("%s:%s:%s x%d" % (k[0], k[1], k[2], len(v)) for k, v in refused.items()),
+        "invoke_observed": facts,
+        "invoke_samples": samples,
+    })
+    # every convention of every target must have been observed at a call site, and every kind of observation must have happened
+    want = ["sysv64", "win64", "vectorcall64", "x64-lightcall2", "x86-cdecl", "x86-stdcall", "x86-fastcall", "x86-regparm1", "x86-regparm2", "x86-regparm3",
+            "x86win-cdecl", "x86win-stdcall", "x86win-fastcall", "x86win-thiscall", "x86win-vectorcall", "x86-lightcall2", "a64-linux", "a64-apple"]
+    missing = [k for k in want if not by_conv.get(k)]
+    if missing:
+        raise common.HarnessError("invoke workload: no call site of %s was checked (inconclusive: %s)" % (missing, inconclusive))
+    for k in ("arg_bytes", "stack_args", "imm_args", "indirect_args", "ret_bytes", "live_bytes", "preserved_regs", "caller_return_bytes", "caller_return_pairs"):
+        if not facts.get(k):
+            raise common.HarnessError("invoke workload observed nothing of kind %s" % k)
+    cross = sum(v for k, v in pairs.items() if k.split("->")[0] != k.split("->")[1])
+    if not cross:
+        raise common.HarnessError("invoke workload: no call site whose caller and callee conventions differ")
+    return len(shapes), tot["checked"]
 
 
 # ---------------------------------------------------------------------------------------------
@@ -1941,6 +2704,8 @@ def workload_b(chk, exe_plain, exe_asan, tier, scale, cov):
 
     calls = 0
     guard = {"calls": 0, "regs": 0}
+    cross = {"cross_calls": 0, "helper_runs": 0, "live_values": 0}
+    built_by = {}
     info = {}
     gen = {"signatures": 0, "calls": 0, "built": 0, "rejected": 0, "rejects": {}, "samples": []}
     for job, rc, out, err in common.parallel_map(one, jobs):
@@ -1964,6 +2729,11 @@ def workload_b(chk, exe_plain, exe_asan, tier, scale, cov):
         calls += res["calls"]
         guard["calls"] += res.get("guard_calls", 0)
         guard["regs"] += res.get("guard_regs", 0)
+        if tag == "plain":
+            for k2 in cross:
+                cross[k2] += res.get(k2, 0)
+            for k2, v2 in res.get("built_by", {}).items():
+                built_by[k2] = built_by.get(k2, 0) + v2
         if "--callees" in argv:
             if tag == "plain":
                 gen["signatures"] += res["signatures"]
@@ -1994,7 +2764,21 @@ def workload_b(chk, exe_plain, exe_asan, tier, scale, cov):
         "interop_callee_libraries_compiled": compiled,
         "interop_calls_through_preserved_register_guard": guard["calls"],
         "interop_guard_registers_compared": guard["regs"],
+        "interop_functions_built_by_kind": built_by,
+        "interop_calls_of_functions_that_call_the_other_convention": cross["cross_calls"],
+        "interop_clobber_helper_runs": cross["helper_runs"],
+        "interop_values_live_across_a_call_compared": cross["live_values"],
     })
+    # floors: every direction x convention x new dimension must have produced functions that ran
+    need = ["jit-caller:sysv64", "jit-caller:win64", "jit-caller:sysv64:live", "jit-caller:win64:live", "jit-caller:sysv64:target-in-register", "jit-caller:win64:target-in-register",
+            "jit-caller:sysv64:va", "jit-caller:sysv64:va:live:target-in-register", "jit-caller:win64:va",
+            "jit-callee:sysv64", "jit-callee:win64", "jit-callee:win64:calls-sysv", "jit-callee:sysv64:calls-win64", "lightcall:live:calls-sysv"]
+    missing = [k for k in need if not built_by.get(k)]
+    if missing:
+        raise common.HarnessError("interop workload built no function of kind %s (built: %s)" % (missing, built_by))
+    for k2, v2 in cross.items():
+        if not v2:
+            raise common.HarnessError("interop workload observed nothing of kind %s" % k2)
     return calls
 
 
@@ -2058,6 +2842,22 @@ def replay(chk, rp, exe_asan, exe_plain):
             print("\n".join("  " + " ".join(x) for x in insts))
             for key, what in viol + pviol:
                 chk.violation(key, what, case)
+    elif part == "invoke":
+        exe = exe_asan if case.get("flavour") == "asan" else exe_plain
+        cases, summ, aborts, rc, err = run_invoke_job(exe, case["argv"])
+        for bad, rep, av in aborts:
+            chk.violation(rp["key"], "again: %s %s" % (rep["kind"], rep["frames"][:4]), case)
+        n = 0
+        for c in cases:
+            n += 1
+            if "err" in c:
+                chk.violation("invoke:%s:refused:%s" % (conv_key(c["env"], c["conv"]), refusal_feature(c)), "Compiler::finalize() returned %s: %s" % (c["err"], invoke_text(c)), case)
+                continue
+            insts = disassemble([bytes.fromhex(c["code"])], c["arch"])[0]
+            print("\n".join("  " + " ".join(x) for x in insts))
+            viol, verdict, f = judge_invoke(c, insts)
+            for key, what in viol:
+                chk.violation(key, what, case)
     else:
         exe = exe_asan if case.get("flavour") == "asan" else exe_plain
         if "callee_sigs" in case and "--callees" in case["argv"]:
@@ -2084,13 +2884,25 @@ def run(tier, args):
     if args.replay:
         return replay(chk, json.load(open(args.replay)), exe_asan, exe_plain)
     cov = {}
+    import time
+    walls = {}
+    t0 = time.time()
     nd_a, samples_a, n_a = workload_a(chk, exe_asan, tier, args.scale, cov)
+    walls["A classify"] = round(time.time() - t0, 1)
+    t0 = time.time()
     calls = workload_b(chk, exe_plain, exe_asan, tier, args.scale, cov)
+    walls["B interop"] = round(time.time() - t0, 1)
+    t0 = time.time()
     nd_c, samples_c, n_c = workload_c(chk, exe_plain, exe_asan, tier, args.scale, cov)
+    walls["C shuffle"] = round(time.time() - t0, 1)
+    t0 = time.time()
+    nd_d, n_d = workload_d(chk, exe_plain, exe_asan, tier, args.scale, cov)
+    walls["D invoke"] = round(time.time() - t0, 1)
+    cov["workload_wall_s"] = walls
     chk.coverage.update(cov)
     chk.coverage.update({
-        "evaluations": n_a + n_c + calls,
-        "distinct_nontrivial": nd_a + nd_c,
+        "evaluations": n_a + n_c + calls + n_d,
+        "distinct_nontrivial": nd_a + nd_c + nd_d,
         "rule": "one evaluation = one signature classified by FuncDetail::init, one entry sequence emitted by emit_args_assignment, or one native call. "
                 "distinct_nontrivial = distinct (convention, varargs, return type, argument types) for which gcc 12 and clang 14 gave an unambiguous verdict "
                 "(both agree where both support the target; ambiguous and unparsed signatures are not counted) + distinct assignment shapes "
@@ -2119,10 +2931,27 @@ def run(tier, args):
         "pop, ldp; `mov r,r` of full width is no write) must be in FuncFrame::saved_regs() and a prolog instruction before the write must store it; violation keys carry the role of the register "
         "(sa-base:requested|picked, sa-out-differs-from-frame-sa, argument-destination, scratch), not its name",
         "narrow integer arguments carry junk above their declared width (the ABI does not promise more); destinations are compared on the bytes of the destination type only; mixed-signedness widenings are not generated",
-        "an error returned by update_func_frame/emit_args_assignment/Compiler::finalize is counted as 'rejected', never as a violation",
+        "an error returned by update_func_frame/emit_args_assignment for a valid assignment and by Compiler::finalize for a call site / function with a valid signature is a refusal: "
+        "it is reported under a key that names what in the input explains it (shuffle:*:refused:<feature>, interop:<conv>:<who>:refused:<feature>, invoke:<conv>:refused:<feature>); "
+        "the classes that exist today are recorded findings, a new class is a violation (a regression that makes the Compiler refuse a whole class would otherwise only shrink coverage)",
+        "call-site workload (D): symbolic execution of the emitted bytes (objdump / llvm-objdump text, byte-level symbols). What a call does: every register outside the callee convention's preserved set "
+        "(ABI table: SysV rbx rbp r12-r15; Microsoft x64/vectorcall + rsi rdi and the low 128 bits of xmm6-15; i386 ebx ebp esi edi; AAPCS64/Apple x19-x29 and the low 64 bits of v8-v15; "
+        "light-call: the convention's own record, 16 bytes per vector register) and the callee's incoming argument area become unknown, callee-pops conventions move sp; the return registers FuncDetail names hold the result. "
+        "Argument bytes are compared on the width of the argument type only (no extension demanded); by-reference copies must be aligned to their size; sp must be 16-byte aligned at the call on x86-64 and AArch64 "
+        "(i386 is not judged: psABI/Windows say 4, Linux compilers keep 16); a store that starts inside the outgoing argument area may not reach FuncFrame::local_stack_offset() (where the function's own data starts)",
+        "CallConv::natural_stack_alignment(): 16 on x86-64 and AArch64; on i386 both 4 (original psABI, Windows) and 16 (what gcc/clang maintain on Linux) are accepted",
+        "FuncValue::type_id(): the signature type, except that return values narrower than 32 bits are reported as i32/u32 and a 64-bit integer on x86-32 is the pack (u32, i32|u32); reg_type() must be at least as wide as the type",
+        "signatures on which gcc and clang disagree are compared with each compiler's whole view separately: AsmJit must equal one of them (else classify:<conv>:matches-neither:<class of the disputed type>); "
+        "structural facts (no register twice, no overlapping stack arguments, arg_stack_size covers them) are checked for every signature",
         "ASan/UBSan flavour: classification, a slice of workload C without execution, one interop pass; plain -O2 flavour: native execution",
         "mutation self-test (quick tier, seed 1, scratch copies, 2026-09-27): SysV passed order rdi<->rsi swapped -> classify:sysv64:int:reg-gp-id + interop:sysv64:*:arg:int; "
         "Win64 `stack_offset += 8` dropped for indirect vectors -> classify:win64:*:after-ind-stack; no-progress (kWorkPostponed) check removed from emit_args_assignment -> "
         "shuffle:x64|x86:hang:emit-does-not-terminate; Int8->Int32 removed from the movsx list -> shuffle:x64|x86:sext:int:*:via-movzx; all four seen as keys absent from the unmutated run",
+        "mutation self-test of the round-11 dimensions (quick tier, seed 1, scratch copies, 2026-09-27): a64 move_reg_to_stack_arg offset+8 -> invoke:a64-*:arg:*:stack; x86 second return register bound to EBX -> "
+        "invoke:x86-*:ret:int:reg-gp; x86 on_invoke clobber set taken from the caller's convention -> interop:win64:jit-callee:calls-sysv:callee-saved-clobbered:{rsi,rdi,xmm6-15} + "
+        "invoke:caller-win64:callee-sysv64:preserved-register-not-restored:* + invoke:sysv64:value-live-across-call-lost:*; Win64 natural stack alignment 32 -> classify:win64:natural-stack-alignment "
+        "(+ invoke:win64:by-reference-copy-misaligned); Win64 vector-register call sites refused -> interop:win64:jit-caller:refused:plain-signature + invoke:win64:refused:*; a64 vec128 -> kVec64 -> "
+        "classify:a64-*:reg-type:v128; a64 unsigned narrow returns typed i32 -> classify:a64-*:ret:type-id:int; Win64 8-byte vectors never in the positional GP register -> classify:win64:matches-neither:v64; "
+        "mask destination always kmovb / 8-byte MMX load with movd -> shuffle:x64|x86:move:*:stack->reg:via-kmovb|via-movd",
     ]
     return chk.finish()
